@@ -20,7 +20,7 @@
                          datagram bytes, any interleaving, loss, duplication, delay, any TTLs. *)
 From Coq Require Import List NArith Bool.
 From Mdns Require Import Res Bytes Rec Wire Txt Cache Browser C03Spec CacheProofs CacheInvProofs BrowserProofs
-  BrowserExamples.
+  BrowserExamples BrowserKnown AouCasesProofs C03LastProofs.
 Import ListNotations.
 Open Scope N_scope.
 
@@ -85,6 +85,69 @@ Theorem C03_cache_flush_rule : forall r ifx now e,
   then set_expires e (now + 1000) else e.
 Proof. exact flush_one_spec. Qed.
 
+(* Clause "... as the network LAST advertised it" (round 6, after the seeded change C03-m5).
+   chk_C03_last (Model/C03Spec.v): host / port of a ServiceResolved are those of the SRV record of
+   the instance received most recently among the current ones (live, not superseded, not
+   displaced), the TXT properties those of the most recently received current TXT record; for some
+   prefix of the current iteration's deliveries; records of not-for-us responses after the last
+   for-us one are admissible too.  Full statement:
+       forall ifs h, wf_history h = true -> chk_C03_last ifs h (run_history ifs h) = true
+   It is FALSE of the faithful model and of the daemon (C03_known_reannounced_witness, finding
+   C03-reannounced-record-keeps-position): a record that is announced again keeps its place in
+   the Vec, a new one goes in front, and resolve_service_from_cache takes the first live one - so
+   after the pattern A, B, A the daemon keeps reporting B.  _partial: outside the class
+   known_reannounced the statement is NOT proved (it needs, beyond the C03 invariant, that every
+   current for-us delivery is IN the cache and that each bucket is ordered by first insertion -
+   and stop_browse, which drops records, as a further class); it is checked by the monitor on
+   model and implementation for every generated history.  Proved are the three facts about the
+   code the clause rests on, for all caches and records: *)
+Theorem C03_resolve_uses_first_live_srv : forall c now ty inst sb,
+  bm_get inst (c_srv c) = Some sb ->
+  let r := resolve_from_cache c now ty inst in
+  match find (fun e => negb (expires_soon e now)) sb with
+  | Some e => rs_host r = srv_host e /\ rs_port r = srv_port e
+  | None => rs_host r = [] /\ rs_port r = 0
+  end.
+Proof. exact resolve_uses_first_live. Qed.
+
+Theorem C03_resolve_uses_first_live_txt : forall c now ty inst tb,
+  bm_get inst (c_txt c) = Some tb ->
+  rs_txt (resolve_from_cache c now ty inst)
+  = match find (fun e => negb (expires_soon e now)) tb with Some e => txt_props (txt_text e) | None => [] end.
+Proof. exact resolve_txt_first_live. Qed.
+
+Theorem C03_new_record_in_front : forall c now ifx r fu k e0 t0,
+  kind_of_type (r_type r) = Some k ->
+  bm_get (key_of k (r_name r)) (get_map c k) = Some (e0 :: t0) ->
+  update_first (map (fl r ifx now) (e0 :: t0)) r ifx now = None ->
+  bm_get (key_of k (r_name r)) (get_map (fst (add_or_update c now ifx r fu)) k)
+  = Some (new_entry r now ifx :: map (fl r ifx now) (e0 :: t0))
+  /\ snd (add_or_update c now ifx r fu) = Some (new_entry r now ifx, true).
+Proof. exact new_record_in_front. Qed.
+
+Theorem C03_reannounced_keeps_position : forall r ifx now b b2 z,
+  update_first b r ifx now = Some (b2, z) ->
+  length b2 = length b
+  /\ forall n e, nth_error b n = Some e ->
+       nth_error b2 n = Some e \/ (entry_matches e r ifx = true /\ nth_error b2 n = Some (reset_ttl e r now)).
+Proof. exact reannounced_keeps_position. Qed.
+
+(* witness of the class (model; the simulated daemon agrees, corpus case reannounced-older) and
+   passing examples: the update 1.9 s after the announcement, the update 200 ms after it *)
+Theorem C03_known_reannounced_witness :
+  wf_history reann_hist = true
+  /\ known_reannounced (log_of_history ex_ifs reann_hist) = true
+  /\ chk_C03 ex_ifs reann_hist (run_history ex_ifs reann_hist) = true
+  /\ chk_C03_last ex_ifs reann_hist (run_history ex_ifs reann_hist) = false.
+Proof. exact reannounced_witness. Qed.
+
+Example C03_last_advertised_example :
+  chk_C03_last ex_ifs ex_hist (run_history ex_ifs ex_hist) = true
+  /\ chk_C03_last ex_ifs quick_hist (run_history ex_ifs quick_hist) = true
+  /\ map (fun o => existsb is_resolved_evt o) (run_history ex_ifs quick_hist) = [false; true; true; true; false]
+  /\ known_reannounced (log_of_history ex_ifs quick_hist) = false.
+Proof. exact last_advertised_examples. Qed.
+
 (* Non-vacuity: browse, full announcement (ServiceFound + ServiceResolved), update of the port
    (ServiceResolved again), goodbye, ServiceRemoved exactly one second later; the history is
    well-formed and its trace passes the checker. *)
@@ -106,4 +169,10 @@ Print Assumptions C03_goodbye_new.
 Print Assumptions C03_goodbye_cached.
 Print Assumptions C03_goodbye_never_used.
 Print Assumptions C03_cache_flush_rule.
+Print Assumptions C03_resolve_uses_first_live_srv.
+Print Assumptions C03_resolve_uses_first_live_txt.
+Print Assumptions C03_new_record_in_front.
+Print Assumptions C03_reannounced_keeps_position.
+Print Assumptions C03_known_reannounced_witness.
+Print Assumptions C03_last_advertised_example.
 Print Assumptions C03_example.
